@@ -20,7 +20,7 @@
 From Coq Require Import List NArith ZArith Bool String.
 From stdpp Require Import pmap.
 From OV Require Import Base.Bytes Base.Tree Model.Heap
-  Proofs.HeapIds Proofs.HeapTree Proofs.HeapOps Proofs.HeapRep Proofs.Heap.
+  Proofs.HeapIds Proofs.HeapTree Proofs.HeapOps Proofs.HeapRep Proofs.Heap Proofs.HeapReader.
 Import ListNotations.
 
 (* (1) Refinement: an operation whose API precondition holds never panics, never runs out of
@@ -88,6 +88,17 @@ Proof. exact held_ids_distinct_pf. Qed.
 Theorem ids_unique_par : forall sched c, NoDup (map snd (snd (par_run c sched))).
 Proof. exact par_run_nodup. Qed.
 
+(* (4) The slot discipline of the readers (sp.stream / r.target cleared on Release; Read removes
+   what is still in the slot) together with the ingester's release-once protocol: for every
+   interleaving of reads and releases, every removal the reader issues is of a node it delivered
+   and no node is removed twice - the precondition "n is live" of RemoveAndReleaseTree.  The
+   delivered nodes are pairwise distinct because they are live when delivered (live_forest_nodup). *)
+Theorem reader_slot_no_double_release : forall cs,
+  NoDup (deliveries cs) ->
+  let rm := snd (reader_run (mkR None None) cs) in
+  NoDup rm /\ (forall r, r ∈ rm -> r ∈ deliveries cs).
+Proof. exact reader_slot_pf. Qed.
+
 (* ---- non-vacuity ------------------------------------------------------------------------------ *)
 (* A history that builds a tree, removes a middle subtree (two nodes are reset and pooled) and
    creates two nodes that reuse the pooled ones, attaching one of them elsewhere. *)
@@ -124,6 +135,12 @@ Proof.
   - rewrite Hp. discriminate.
   - reflexivity.
 Qed.
+
+Example c12_reader_nonvacuous :
+  snd (reader_run (mkR None None)
+         [CRead (Some 1); CRelease; CRead None; CRelease; CRead (Some 2); CRead (Some 3); CRelease; CRelease]%positive)
+  = [1; 2; 3]%positive.
+Proof. reflexivity. Qed.
 
 Example c12_par_nonvacuous :
   map snd (snd (par_run 10 [0; 1; 0; 2; 1]%nat)) = [11; 12; 13; 14; 15]%Z.
